@@ -13,7 +13,7 @@ OBLIGATIONS = ['Cvise.C03.drive_bound', 'Cvise.C03.binary_search_bound', 'Cvise.
                'Cvise.C03.main_rounds_le', 'Cvise.C03.shipped_stop_cmp', 'Cvise.step_mu', 'Cvise.D.mainLoop_stops', 'Cvise.C03.balanced_bound',
                'Cvise.C03.balanced_recipes_shrink', 'Cvise.C03.ternary_bound', 'Cvise.C03.pass_run_on_a_file_terminates', 'Cvise.C03.reduction_terminates',
                'Cvise.C03.balanced_parallel_terminates', 'Cvise.C03.ternary_parallel_terminates',
-               'Cvise.C03.ints_bound', 'Cvise.C03.special_bc_bound', 'Cvise.C03.blank_bound', 'Cvise.C03.includes_bound', 'Cvise.C03.comments_bound']
+               'Cvise.C03.ints_bound', 'Cvise.C03.special_bc_bound', 'Cvise.C03.blank_bound', 'Cvise.C03.includes_bound', 'Cvise.C03.comments_bound', 'Cvise.C03.gcda_bound', 'Cvise.C03.ifs_bound']
 
 
 def cap_for(name, arg, n):
